@@ -1,6 +1,6 @@
 (* C14 — WCS wrappers are exact, invertible re-parameterisations.  The inner WCS is an arbitrary record of
    functions on rational vectors; "roundtrips" / "wellformed" are the assumed laws of the inner WCS. *)
-From NDV Require Import M_Wrappers P_Wrappers.
+From NDV Require Import M_Wrappers P_Wrappers P_ResampleCompose.
 Open Scope Q_scope.
 
 (* resampling wrapper: pixel p is sent to the inner WCS's value at p*factor+offset; attributes unchanged *)
@@ -78,6 +78,17 @@ Proof. exact compound_refuses_wrong_mapping_length. Qed.
 Print Assumptions C14_compound_refuses_mapping_length.
 
 (* non-vacuity: the linear probe WCS satisfies the assumed laws; an asymmetric permutation *)
+(* already-wrapped inner WCS: a resampling wrapper over a resampling wrapper evaluates the innermost WCS at the same
+   position as ONE resampling wrapper with factor f2*f1 and offset o2*f1+o1 (which is accepted whenever the two are) *)
+Theorem C14_resample_compose : forall W f1 o1 f2 o2 W1 W2, resampled W f1 o1 = Ok W1 -> resampled W1 f2 o2 = Ok W2 ->
+  exists W12, resampled W (comp_factor f1 f2) (comp_offset f1 o1 o2) = Ok W12 /\
+    forall p, length p = npix W ->
+      p2w W2 p = p2w W (scale f1 o1 (scale f2 o2 p)) /\
+      p2w W12 p = p2w W (scale (comp_factor f1 f2) (comp_offset f1 o1 o2) p) /\
+      veq (scale f1 o1 (scale f2 o2 p)) (scale (comp_factor f1 f2) (comp_offset f1 o1 o2) p).
+Proof. exact resampled_compose. Qed.
+Print Assumptions C14_resample_compose.
+
 Example C14_nonvacuous :
   let W := lin_wcs [[1; 0]; [2; 1]] [[1; 0]; [-2 # 1; 1]] [3; 5] [0; 1]%Z [0; 1]%Z None None in
   list_eqb Qeq_bool (w2p W (p2w W [7; 1 # 2])) [7; 1 # 2] = true /\ inv_perm [1; 2; 0]%nat = [2; 0; 1]%nat /\
